@@ -138,7 +138,7 @@ impl Compiler {
                             args.len() as u8,
                             &qualified_name,
                             span,
-                        );
+                        )?;
 
                         for i in (0..args.len()).rev() {
                             let arg_reg = arg_start + i as u8;
@@ -250,7 +250,7 @@ impl Compiler {
                             args.len() as u8,
                             name,
                             span,
-                        );
+                        )?;
 
                         for i in (0..args.len()).rev() {
                             let arg_reg = arg_start + i as u8;
@@ -391,7 +391,7 @@ impl Compiler {
                     total_args as u8,
                     &qualified_name,
                     span,
-                );
+                )?;
 
                 // Free registers
                 for i in (0..total_args).rev() {
@@ -480,7 +480,7 @@ impl Compiler {
 
             self.compile_typed_expr(object, arg_start)?;
 
-            self.emit_call_global_cached(dest, global_idx as u8, 1, qualified_name, span);
+            self.emit_call_global_cached(dest, global_idx as u8, 1, qualified_name, span)?;
 
             self.register_pool[arg_start as usize] = false;
             return Ok(());
